@@ -63,7 +63,22 @@ Input classes added when the check was strengthened (all part of A1 / A2):
    alters the grammar model" was only ever checked where there was nothing to alter.  The model is now looked at in four
    ways before / after every parse and in every compile result: asjson, a direct walk over node classes and declared
    fields, pretty(), pretty_lean().  Directed histories use a compiled grammar in every other way (generate the source,
-   compile again, build the generated parser) before and after the first parse (ok or failed, model.parse or tatsu.parse).
+ * CONSTANT EXPRESSIONS OVER NAMES (grammars 19-21 and semantics 9-10, generated from the seed): constants `name`,
+   `{name}!`, `len(name)`, `{a}-{b}`, `a + b` ... whose names are named elements of SOME rule: defined in the rule that
+   holds the constant, in another rule of the grammar, in a rule of another grammar of the family, provided by the
+   safe_context() of a semantics object (which hands out its own dict), or nowhere.  What a name stands for is per rule
+   invocation; a name that is not defined stays text.  Every grammar after every grammar, one model / one generated parser
+   object over all the texts, with and without the semantics objects that provide names; write set of their dicts.
+ * calls that are given NOTHING but the caller's ParserConfig object next to one model-building option, through every
+   entry point that takes config= (directed; such calls were left to the dice of the random histories);
+ * BUILDER OPTIONS IN CONTAINERS THE CALLER OWNS AND REUSES (builder options 6-15, generated from the seed): typedefs=
+   lists over a module / a mapping / a class that define node classes, constructors= lists, BuilderConfig objects built
+   over those very lists (alone and combined with typedefs= / basetype=), and ModelBuilderSemantics objects built per call
+   from them: ONE object per container per process, given to compile / tatsu.parse / ModelBuilderSemantics in many calls
+   (before: every call built its own throw-away objects).  Write-set oracle over every container before / after every call
+   (contents by name, nested containers by identity), and every call compared with a fresh process as before; the node
+   classes of a result carry their module, and a difference of classes is the recorded registry finding D6c only when
+   the classes are synthesized ones in both results (else history:unexplained-classes).
 """
 from __future__ import annotations
 
@@ -199,8 +214,17 @@ class Twin:
         return hash('Twin')
     def _default(self, ast, *args, **kwargs):
         return [self.tag, ast]
+class Ctx:
+    """a semantics object that provides names for the constant expressions of a grammar (`...`): safe_context() hands
+    out the object's own dict, as a program that keeps its evaluation context on the semantics object does"""
+    def __init__(self, ctx):
+        self.ctx = dict(ctx)
+    def safe_context(self):
+        return self.ctx
 SEMS = {1: Ident(), 2: Tag('A'), 3: Tag('B'), 4: ModelBuilderSemantics(), 5: ModelBuilderSemantics(basetype=B1),
         6: Conv(), 7: Twin('$twinA'), 8: Twin('$twinB')}
+for _k, _v in (EXTRA.get('contexts') or {}).items():
+    SEMS[int(_k)] = Ctx(_v)
 
 # ---- short-lived semantics objects: created for ONE call and dropped after it (a request handler that builds its
 # semantics object per request).  Their lifetime ends, so the allocator may hand their address (their id()) to a later,
@@ -307,7 +331,92 @@ def eph_new(n):
         _eph_watch(chosen)
     return chosen
 
+# ---- builder options whose containers are OWNED BY THE CALLER and reused: typedefs= lists and the modules / mappings /
+# classes in them, constructors= lists, BuilderConfig objects built over those lists.  ONE object per container name per
+# process (a program keeps its registry of node classes and passes it to every call); described by the harness from the
+# seed (EXTRA['owned']).  Whatever a call writes into one of them is seen by every later call that is given the object.
+OWN = EXTRA.get('owned') or {'containers': {}, 'bopts': {}}
+OWNED = {}
+OWN_SEM_BASE = 100000
+OWN_BASES = {'Node': Node, 'B1': B1, 'B2': B2}
+
+def _own_class(name, modname):
+    return type(name, (Node,), {'__module__': modname})
+
+def owned(cname):
+    if cname in OWNED:
+        return OWNED[cname]
+    spec = OWN['containers'][cname]
+    kind = spec['kind']
+    mod = 'c10own_' + cname
+    if kind == 'module':
+        o = types.ModuleType(mod)
+        for n in spec['types']: setattr(o, n, _own_class(n, mod))
+    elif kind == 'mapping':
+        o = {n: _own_class(n, mod) for n in spec['types']}
+    elif kind == 'class':
+        o = type(mod, (), dict({n: _own_class(n, mod) for n in spec['types']}, __module__=mod))
+    elif kind == 'list':
+        o = [_own_class(x[2:], '__main__') if x.startswith('T:') else owned(x) for x in spec['items']]
+    elif kind == 'builderconfig':
+        kw = {}
+        if spec.get('typedefs'): kw['typedefs'] = owned(spec['typedefs'])
+        if spec.get('constructors'): kw['constructors'] = owned(spec['constructors'])
+        if spec.get('basetype'): kw['basetype'] = OWN_BASES[spec['basetype']]
+        if 'synthok' in spec: kw['synthok'] = spec['synthok']
+        o = BuilderConfig(**kw)
+    else:
+        raise KeyError(kind)
+    OWNED[cname] = o
+    return o
+
+def _nm(x):
+    return '%s.%s' % (getattr(x, '__module__', '?'), getattr(x, '__name__', None) or type(x).__name__)
+
+def _own_ref(x):
+    for cname, o in OWNED.items():
+        if o is x: return '@' + cname
+    if isinstance(x, (list, tuple)): return [type(x).__name__] + [_own_ref(v) for v in x]
+    return _nm(x)
+
+def owned_snapshot():
+    """what a program sees when it looks at its own containers (contents by name, nested containers by identity)"""
+    out = {}
+    for cname, o in list(OWNED.items()):
+        kind = OWN['containers'][cname]['kind']
+        if kind == 'builderconfig':
+            v = {k: _own_ref(x) if not isinstance(x, (bool, int, str, type(None))) else repr(x) for k, x in vars(o).items()}
+        elif kind == 'list':
+            v = [_own_ref(x) for x in o]
+        elif kind == 'mapping':
+            v = [[k, _own_ref(x)] for k, x in o.items()]
+        else:
+            v = sorted([k, _own_ref(x)] for k, x in vars(o).items() if not k.startswith('__'))
+        out[cname] = jdump(v)
+    return out
+
+def owned_role(cname):
+    spec = OWN['containers'][cname]
+    return 'builder-' + (spec.get('role') or spec['kind'])
+
+def own_bopt_of(n):
+    return (n - OWN_SEM_BASE) % 32
+
+def prepare_owned(op):
+    """the caller's containers exist before the call that is given them (so that the write-set oracle has a before)"""
+    for d in (op, op.get('a'), op.get('p'), op.get('t')):
+        if not isinstance(d, dict): continue
+        b = d.get('bopt')
+        if isinstance(b, int) and str(b) in OWN['bopts']: bopt(b)
+        n = d.get('sem')
+        if isinstance(n, int) and n >= OWN_SEM_BASE: bopt(own_bopt_of(n))
+
 def sem_obj(n):
+    if n >= OWN_SEM_BASE:
+        # a ModelBuilderSemantics object built for this call from the caller's containers
+        kw = dict(bopt(own_bopt_of(n)))
+        if 'builderconfig' in kw: kw['config'] = kw.pop('builderconfig')
+        return ModelBuilderSemantics(**kw)
     return SEMS[n] if n < EPH_BASE else eph_new(n)
 
 def bopt(i):
@@ -318,6 +427,13 @@ def bopt(i):
     if i == 3: return {'basetype': B1, 'synthok': False}
     if i == 4: return {'builderconfig': BuilderConfig(basetype=B2)}
     if i == 5: return {'typedefs': [{'B1': B1}]}
+    if str(i) in OWN['bopts']:
+        out = {}
+        for k, v in OWN['bopts'][str(i)].items():
+            if k in ('typedefs', 'constructors', 'builderconfig'): out[k] = owned(v)
+            elif k == 'basetype': out[k] = OWN_BASES[v]
+            else: out[k] = v
+        return out
     raise KeyError(i)
 
 def sem_kind(s):
@@ -345,7 +461,10 @@ def collect_types(x, out, seen, depth=0):
     elif hasattr(x, '__dict__') and not isinstance(x, type):
         mro = [c.__name__ for c in type(x).__mro__]
         if 'BaseNode' in mro:
-            out[type(x).__name__] = mro
+            # classes that are not the library's carry their module: two classes of one name that come from
+            # different containers of the caller (or one from a container, one synthesized) are different results
+            out[type(x).__name__] = [c.__name__ if (c.__module__ or '').split('.')[0] in ('tatsu', 'builtins')
+                                     else c.__module__ + '.' + c.__name__ for c in type(x).__mro__]
             for k, v in list(vars(x).items()):
                 if not k.startswith('_') and k not in ('parseinfo', 'ctx'):
                     collect_types(v, out, seen, depth + 1)
@@ -1254,16 +1373,31 @@ def op_threads(op):
     return {'ok': 'threads', 'bad': bad[:5], 'nbad': len(bad), 'idbad': idbad[:5], 'later': later[:5], 'n': n,
             'seq': seq, 'lockstep': ls.stat if ls else None, 'types': {}}
 
+def ctx_snapshot():
+    return [[k, repr(sorted(v.ctx.items(), key=repr))] for k, v in SEMS.items() if isinstance(v, Ctx)]
+
 def run_script(script):
     env = Env()
     out = []
     for op in script:
         made = EPH_STAT['made']
+        own_before = None
+        if OWN['bopts']:
+            prepare_owned(op)
+            own_before = owned_snapshot() if OWNED else None
+        ctx_before = ctx_snapshot()
         try:
             out.append(run_op(env, op))
         except BaseException as e:
             if isinstance(e, (KeyboardInterrupt, SystemExit)): raise
             out.append(canon_exc(e))
+        if own_before and isinstance(out[-1], dict):
+            own_after = owned_snapshot()
+            changed = sorted({owned_role(c) for c in own_before if own_before[c] != own_after.get(c)})
+            if changed:
+                out[-1]['mutated'] = sorted(set(out[-1].get('mutated') or []) | set(changed))
+        if ctx_before != ctx_snapshot() and isinstance(out[-1], dict):
+            out[-1]['mutated'] = sorted(set(out[-1].get('mutated') or []) | {'semantics-safe-context'})
         if EPH_STAT['made'] != made:
             # the call is over: its short-lived semantics object is dropped, and collected if nothing holds it
             gc.collect()
@@ -1312,6 +1446,7 @@ main()
 '''
 
 
+OWN_FAMILY: dict = {}            # the caller-owned builder containers of this run (gen_owned_family), set by main()
 EXTRA_ENV = {'json': '{}'}       # seed-derived sibling grammars, set by main() before any worker starts
 
 
@@ -1482,6 +1617,8 @@ GRAMS += SHAPE_GRAMS
 for _g in SHAPE_GRAMS:
     NTEXT[_g] = 6
     GSTARTS[_g] = [0, 0, 0, 1, 7]
+OWN_BOPTS = list(range(6, 16))  # builder options over containers the caller owns and reuses (see gen_owned_family)
+OWN_SEM_BASE = 100000           # semantics numbers from here on: a ModelBuilderSemantics built for ONE call from them
 TYPED_GRAMS = [2, 3, 4, 5]      # grammars whose rules name node types (rule::Type): classes are synthesized on first use
 ALL_SEMS = [1, 2, 3, 4, 5, 6, 7, 8]
 TWIN_SEMS = {7, 8}
@@ -1982,9 +2119,251 @@ def directed_ephemeral(rng):
     return out
 
 
+# ---- constant expressions over names (`name`, `{name}!`, `len(name)` ...)
+# A constant of a rule is evaluated in a context made of the named elements the rule has matched so far (and of what
+# the semantics object's safe_context() provides); a name that is not there stays text.  What a name stands for is
+# per rule invocation: the family has, for every name, a rule that defines it and rules (in the same grammar and in the
+# other grammars) that mention it without defining it, so a context that outlives its rule / parse / model shows.
+CONST_GRAMS = [19, 20, 21]
+CTX_SEMS = [9, 10]
+for _g in CONST_GRAMS:
+    NTEXT[_g] = 6
+    GSTARTS[_g] = [0, 0, 0, 1, 7, 5, 3]
+A1_GRAMS = GRAMS + CONST_GRAMS
+CONST_NAMES = ['tag', 'kind', 'unit', 'mode', 'lab', 'ref', 'key', 'sort', 'side', 'role', 'part', 'text']
+CONST_TEMPLATES = ['{x}', '{x}', '{{{x}}}!', '<{{{x}}}>', 'len({x})', '{x}.upper()', '{{{x}}}-{{{y}}}', '{x} + {y}',
+                   '[{x}, {y}]', '{x} * 2', '{{{y}}}:{{{x}}}', '{x} or {y}', '({x}, 1)']
+
+
+def gen_const_family(rng):
+    names = rng.sample(CONST_NAMES, 4)
+    words = rng.sample(SHAPE_WORDS, 6)
+    grammars, texts = {}, {}
+
+    def consts(first, k, bare_ok=True, base=0):
+        out = []
+        for j in range(base, base + k):
+            x = first if j == base else rng.choice(names)
+            y = rng.choice([n for n in names if n != x])
+            e = rng.choice(CONST_TEMPLATES[:4] if j == base else CONST_TEMPLATES).format(x=x, y=y)
+            q = '```' if rng.random() < 0.2 else '`'
+            lead = '' if (bare_ok and j > base and rng.random() < 0.2) else f'c{j}:'
+            out.append(f'{lead}{q}{e}{q}')
+        return ' '.join(out)
+    typed_one = rng.choice(CONST_GRAMS)
+    for g in CONST_GRAMS:
+        n0, n1, n2, n3 = names
+        atom_two = rng.random() < 0.5
+        alt_named = rng.random() < 0.5
+        # item defines n0 (and n1 when there is a second word), atom defines n2 (and n3), alt nothing (or n3)
+        item = (f"'a' {n0}:word {consts(rng.choice([n2, n3]), 1)} [{n1}:word] "
+                f"{consts(rng.choice([n1, n2, n3]), rng.choice([1, 2]), base=1)}")
+        atom = f"'b' {n2}:word {f'{n3}:word ' if atom_two else ''}{consts(n0, rng.choice([2, 3]))}"
+        if alt_named:
+            alt = f"'c' {n3}:word {consts(rng.choice([n0, n2]), 2)}"
+        else:
+            x = rng.choice([n0, n1, n2])
+            alt = f"'c' `{x}` {consts(rng.choice([n0, n2]), 1, bare_ok=False).split(':', 1)[1]}"
+        head = rng.choice(['', '', f'@@grammar :: Kst{g}\n'])
+        ty = (lambda r: f'::{r.capitalize()}K') if g == typed_one else (lambda r: '')
+        grammars[g] = (f"\n{head}start = (item | atom | alt) $ ;\n"
+                       f"item{ty('item')} = {item} ;\n"
+                       f"atom{ty('atom')} = {atom} ;\n"
+                       f"alt = {alt} ;\n"
+                       f"word = /[a-z]+/ ;\n")
+        w = words
+        texts[g] = [f'a {w[0]}', f'a {w[1]} {w[2]}', f'b {w[3]}' + (f' {w[4]}' if atom_two else ''),
+                    'c' + (f' {w[5]}' if alt_named else ''),
+                    f'b {n0}' + (f' {rng.choice(names)}' if atom_two else ''), 'a 9']
+    contexts = {}
+    for k in CTX_SEMS:
+        sub = rng.sample(names, rng.choice([1, 2, 3]))
+        contexts[k] = {n: rng.choice([f'S{k}{n[:1]}', f'S{k}', k * 10 + i]) for i, n in enumerate(sub)}
+    return {'grammars': grammars, 'texts': texts, 'contexts': contexts,
+            'describe': {'names': names, 'grammars': grammars, 'texts': texts, 'contexts': contexts}}
+
+
+def constify(rng, ops):
+    """some calls of a history over the constant-expression grammars run with a semantics object that provides names"""
+    for o in ops:
+        for d, pr in ((o.get('p'), 0.3), (o.get('t'), 0.25), (o.get('a'), 0.15), (o if o['op'] == 'mkparser' else None, 0.3)):
+            if d is not None and 'sem' in d and rng.random() < pr:
+                d['sem'] = rng.choice(CTX_SEMS)
+    return ops
+
+
+def directed_const(rng, everything=False):
+    """every grammar of the family after every one of them (a name defined by a rule of the first, mentioned without
+    being defined in a rule of the second), through compile().parse / tatsu.parse / one model / one generated parser
+    object, without a semantics object and with the two that provide names"""
+    out = []
+    ca = {'name': 0, 'sem': None, 'asmodel': False, 'bopt': None, 'cs': 0}
+    def pp(g, text, sem=None):
+        return {'g': g, 'text': text, 'start': 0, 'ps': 0, 'sem': sem, 'asmodel': False, 'cfgobj': None}
+    def tt(g, text, sem=None):
+        return {'g': g, 'text': text, 'start': 0, 'name': 0, 'ts': 0, 'sem': sem, 'asmodel': False, 'bopt': None,
+                'cfgobj': None}
+    for g1 in CONST_GRAMS:
+        for g2 in CONST_GRAMS:
+            out.append([{'op': 'cparse', 'a': dict(ca, g=g1), 'p': pp(g1, rng.choice([0, 1, 1]))},
+                        {'op': 'cparse', 'a': dict(ca, g=g2), 'p': pp(g2, 2)},
+                        {'op': 'tparse', 't': tt(g2, 3)},
+                        {'op': 'cparse', 'a': dict(ca, g=g2), 'p': pp(g2, 4, rng.choice(CTX_SEMS))}] +
+                       ([{'op': 'tparse', 't': tt(g1, rng.choice([0, 1, 2]))}] if everything else []))
+    for g in CONST_GRAMS:
+        cells = [(t, rng.choice([None, None] + CTX_SEMS)) for t in range(NTEXT[g])] * 2
+        rng.shuffle(cells)
+        if not everything:
+            cells = cells[:7]
+        out.append([{'op': 'compile', 'var': 0, 'a': dict(ca, g=g, asmodel=rng.random() < 0.3)}] +
+                   [{'op': 'mparse', 'var': 0, 'p': pp(g, t, sm)} for t, sm in cells])
+        rng.shuffle(cells)
+        out.append([{'op': 'gen', 'var': 0, 'a': {'g': g, 'name': 0, 'cs': 0}},
+                    {'op': 'mkparser', 'var': 0, 'src': 0, 'cs': 0, 'sem': None, 'ccfg': None}] +
+                   [{'op': 'pparse', 'var': 0, 'p': pp(g, t, sm)} for t, sm in cells])
+        t = rng.randrange(5)
+        out.append([{'op': 'cparse', 'a': dict(ca, g=g), 'p': pp(g, t, CTX_SEMS[0])},
+                    {'op': 'cparse', 'a': dict(ca, g=g), 'p': pp(g, t, CTX_SEMS[1])},
+                    {'op': 'cparse', 'a': dict(ca, g=g), 'p': pp(g, t)},
+                    {'op': 'tparse', 't': tt(g, t, CTX_SEMS[0])},
+                    {'op': 'cparse', 'a': dict(ca, g=g, sem=CTX_SEMS[1]), 'p': pp(g, t)}])
+    return out
+
+
+# ---- builder options in containers the caller owns and reuses (worker: OWNED)
+OWN_TYPES = ['Prog', 'Pair', 'Atom', 'Stmt', 'Bee', 'Alt']     # the node types the rules of TYPED_GRAMS name
+
+
+def gen_owned_family(rng):
+    """typedefs= lists over a module / a mapping / a class that define node classes, constructors= lists, and
+    BuilderConfig objects built over those very lists: ONE object each per process, given to many calls."""
+    kind_b = rng.choice(['mapping', 'class', 'module'])
+    kind_a = rng.choice(['module', 'module', 'class'])
+    part = sorted(rng.sample(OWN_TYPES, rng.choice([2, 3, 4])))
+    rest = [n for n in OWN_TYPES if n not in part]
+    reg2 = ['T:' + n for n in rng.sample(rest, rng.choice([1, 2]))] + (['T:Extra'] if rng.random() < 0.5 else [])
+    containers = {
+        'defsA': {'kind': kind_a, 'types': OWN_TYPES},
+        'defsB': {'kind': kind_b, 'types': part},
+        'tdA': {'kind': 'list', 'role': 'typedefs-list', 'items': ['defsA']},
+        'tdB': {'kind': 'list', 'role': 'typedefs-list', 'items': ['defsB']},
+        'reg1': {'kind': 'list', 'role': 'constructors-list', 'items': ['T:Marker']},
+        'reg2': {'kind': 'list', 'role': 'constructors-list', 'items': reg2},
+        'bcA': {'kind': 'builderconfig', 'typedefs': 'tdA'},
+        'bcR': {'kind': 'builderconfig', 'constructors': 'reg1'},
+        'bcB': {'kind': 'builderconfig', 'typedefs': 'tdB', 'constructors': 'reg2',
+                'basetype': rng.choice(['Node', 'B1'])},
+    }
+    bopts = {6: {'typedefs': 'tdA'}, 7: {'constructors': 'reg1'}, 8: {'typedefs': 'tdA', 'constructors': 'reg1'},
+             9: {'builderconfig': 'bcA'}, 10: {'builderconfig': 'bcR'}, 11: {'builderconfig': 'bcR', 'typedefs': 'tdA'},
+             12: {'typedefs': 'tdB', 'constructors': 'reg2'}, 13: {'builderconfig': 'bcB'}, 14: {'constructors': 'reg2'},
+             15: {'builderconfig': 'bcR', 'basetype': rng.choice(['B1', 'B2'])}}
+    assert sorted(bopts) == OWN_BOPTS
+    return {'containers': containers, 'bopts': {str(k): v for k, v in bopts.items()}}
+
+
+def own_containers(fam, b):
+    """the caller's objects a call with builder option b is given (directly or inside another one)"""
+    out, todo = set(), [v for k, v in fam['bopts'][str(b)].items() if k in ('typedefs', 'constructors', 'builderconfig')]
+    while todo:
+        c = todo.pop()
+        if c in out or c not in fam['containers']:
+            continue
+        out.add(c)
+        spec = fam['containers'][c]
+        todo += [x for x in spec.get('items', []) if not x.startswith('T:')]
+        todo += [spec[k] for k in ('typedefs', 'constructors') if spec.get(k)]
+    return out
+
+
+def own_sem(serial, b):
+    return OWN_SEM_BASE + serial * 32 + b
+
+
+def ownerize(rng, ops):
+    """the calls of a history over the typed grammars take their builder options from the caller's containers; some
+    parses bring a ModelBuilderSemantics object built for that call from them"""
+    serial = 0
+    for o in ops:
+        for d in (o.get('a'), o.get('t')):
+            if d is not None and 'bopt' in d and rng.random() < 0.65:
+                d['bopt'] = rng.choice(OWN_BOPTS)
+                d['sem'] = None
+                d['asmodel'] = rng.random() < 0.2
+        for d, pr in ((o.get('p'), 0.15), (o if o['op'] == 'mkparser' else None, 0.2)):
+            if d is not None and rng.random() < pr:
+                d['sem'] = own_sem(serial, rng.choice(OWN_BOPTS))
+                serial += 1
+    return ops
+
+
+def directed_owned(rng, fam, everything=False):
+    """a call that is given one of the caller's containers, then - over another grammar, through another entry point -
+    a call that is given the same object (alone or inside another option), then the first kind again"""
+    pairs = [(b1, b2) for b1 in OWN_BOPTS for b2 in OWN_BOPTS if own_containers(fam, b1) & own_containers(fam, b2)]
+    if not everything:
+        first = {}
+        rng.shuffle(pairs)
+        for b1, b2 in pairs:
+            if b1 != b2:
+                first.setdefault(b1, (b1, b2))     # every option comes first once
+        chosen = list(first.values())
+        chosen += rng.sample([p for p in pairs if p not in chosen], 4)
+        pairs = chosen
+    out = []
+    ca = {'name': 0, 'sem': None, 'asmodel': False, 'cs': 0}
+    serial = 0
+    for b1, b2 in pairs:
+        g, g2 = rng.sample(TYPED_GRAMS, 2)
+        def pp(gg, sem=None):
+            return {'g': gg, 'text': rng.randrange(2), 'start': 0, 'ps': 0, 'sem': sem, 'asmodel': False, 'cfgobj': None}
+        def tt(gg, b):
+            return {'g': gg, 'text': rng.randrange(2), 'start': 0, 'name': 0, 'ts': 0, 'sem': None,
+                    'asmodel': rng.random() < 0.15, 'bopt': b, 'cfgobj': None}
+        h = [{'op': 'tparse', 't': tt(g, b1)} if rng.random() < 0.6 else
+             {'op': 'cparse', 'a': dict(ca, g=g, bopt=b1), 'p': pp(g)},
+             {'op': 'cparse', 'a': dict(ca, g=g2, bopt=b2), 'p': pp(g2)},
+             {'op': 'tparse', 't': tt(g, b2)},
+             {'op': 'cparse', 'a': dict(ca, g=g, bopt=None), 'p': pp(g, own_sem(serial, b1))}]
+        serial += 1
+        out.append(h)
+    return out
+
+
+def directed_config_only(rng, everything=False):
+    """Calls that are given NOTHING but the caller's configuration object next to the one model-building option (no
+    start, name, semantics, settings): there is nothing to merge into the configuration, so a shortcut that skips the
+    defensive copy makes the library write what it resolves for the call into the caller's object.  Every entry point
+    that takes config= (tatsu.parse, model.parse, parser construction, parser.parse), the same object afterwards in
+    plain calls."""
+    out = []
+    plain = [g for g in GRAMS if g not in TYPED_GRAMS + SHAPE_GRAMS + REGEX_GRAMS]
+    grams = TYPED_GRAMS + plain if everything else rng.sample(TYPED_GRAMS, 2) + rng.sample(plain, 2)
+    ca = {'name': 0, 'sem': None, 'asmodel': False, 'bopt': None, 'cs': 0}
+    for g in grams:
+        c = rng.choice([1, 2, 3, 5, 6])
+        def tt(**kw):
+            return dict({'g': g, 'text': rng.randrange(2), 'start': 0, 'name': 0, 'ts': 0, 'sem': None, 'asmodel': False,
+                         'bopt': None, 'cfgobj': c}, **kw)
+        def pp(**kw):
+            return dict({'g': g, 'text': rng.randrange(2), 'start': 0, 'ps': 0, 'sem': None, 'asmodel': False,
+                         'cfgobj': c}, **kw)
+        build = rng.choice([{'asmodel': True}, {'asmodel': True}, {'bopt': rng.choice([1, 2, 3] + OWN_BOPTS)}])
+        out.append([{'op': 'tparse', 't': tt(**build)},
+                    {'op': 'cparse', 'a': dict(ca, g=g), 'p': pp()},
+                    {'op': 'tparse', 't': tt()},
+                    {'op': 'cparse', 'a': dict(ca, g=g), 'p': pp(asmodel=True)},
+                    {'op': 'gen', 'var': 0, 'a': {'g': g, 'name': 0, 'cs': 0}},
+                    {'op': 'mkparser', 'var': 0, 'src': 0, 'cs': 0, 'sem': None, 'ccfg': c},
+                    {'op': 'pparse', 'var': 0, 'p': pp(asmodel=True)},
+                    {'op': 'pparse', 'var': 0, 'p': pp()},
+                    {'op': 'tparse', 't': tt()}])
+    return out
+
+
 VALID_SETTINGS = [0, 1, 2, 3, 5, 6] + REGEX_SETTINGS
 INVALID_SETTINGS = [4]
-OPAQUE_BOPTS = {4, 5}     # builderconfig / typedefs objects cannot be part of a cache key
+OPAQUE_BOPTS = {4, 5} | set(OWN_BOPTS)    # builderconfig / typedefs / constructors objects cannot be part of a cache key
 
 
 def gen_cargs(rng, g=None):
@@ -2042,7 +2421,7 @@ def gen_targs(rng):
     return t
 
 
-def gen_history(rng, maxlen):
+def gen_history(rng, maxlen, focus_on=None):
     """A history focused on 1-2 grammars so that cache keys collide often."""
     focus = rng.sample(GRAMS, rng.choice([1, 1, 2]))
     if rng.random() < 0.25:
@@ -2055,6 +2434,8 @@ def gen_history(rng, maxlen):
     if regex_mode:
         # the grammars of the regex-form family: one pattern text reaches the input layer in several forms
         focus = rng.sample(REGEX_GRAMS, rng.choice([1, 2, 3]))
+    if focus_on is not None:
+        focus, regex_mode = list(focus_on), False
     n = rng.randint(2, maxlen)
     ops = []
     mvars, svars, pvars = [], [], []
@@ -2252,6 +2633,12 @@ def untwin(r):
     return json.loads(json.dumps(val_of(r)).replace('$twinA', '$twin').replace('$twinB', '$twin'))
 
 
+def synth_bases_only(ta, tb):
+    """the classes of two results differ ONLY in the bases of classes that are synthesized ones in both (D6c)"""
+    ta, tb = ta or {}, tb or {}
+    return set(ta) == set(tb) and all('SynthNode' in ta[n] and 'SynthNode' in tb[n] for n in ta if ta[n] != tb[n])
+
+
 def unexplained_sig(h, i, kind, rh, r0):
     """A dependence the model does not predict.  One shape is recognised (and recorded as D6f): the call runs with one
     of two semantics objects that compare equal, and its result differs from the fresh one ONLY in which of the two
@@ -2273,6 +2660,17 @@ def run_histories(chk: Check, pool: Pool, mr: ModelRun, variant: str):
     histories += directed_regex_forms(rng)
     histories += directed_parser_settings(rng)
     histories += directed_model_use(rng, everything=not chk.quick)
+    # constant expressions over names; builder options in containers the caller owns (own random streams: the
+    # histories above are what they were)
+    crng = _random.Random(f'{PID}-{chk.seed}-const')
+    histories += directed_const(crng, everything=not chk.quick)
+    histories += [constify(crng, gen_history(crng, maxlen, focus_on=crng.sample(CONST_GRAMS, crng.choice([1, 2, 3]))))
+                  for _ in range(6 if chk.quick else 120)]
+    histories += directed_config_only(_random.Random(f'{PID}-{chk.seed}-config-only'), everything=not chk.quick)
+    orng = _random.Random(f'{PID}-{chk.seed}-owned')
+    histories += directed_owned(orng, OWN_FAMILY, everything=not chk.quick)
+    histories += [ownerize(orng, gen_history(orng, maxlen, focus_on=orng.sample(TYPED_GRAMS, orng.choice([1, 2]))))
+                  for _ in range(8 if chk.quick else 150)]
     # directed histories around the witnesses of the Coq refutation, so that the cache paths are always reached
     for g in GRAMS:
         histories.append([{'op': 'compile', 'var': 0, 'a': {'g': g, 'name': 0, 'sem': None, 'asmodel': False, 'bopt': None, 'cs': 0}},
@@ -2317,7 +2715,7 @@ def run_histories(chk: Check, pool: Pool, mr: ModelRun, variant: str):
     # (the generated regex settings are only used with the grammars of their family,
     # and the table is measured for the (name, grammar, settings) of the compiles the histories can make: the model
     # asks boot_ok for nothing else - a missing entry that fails would show up as corr:api-model, never silently)
-    needed = {(0, g, 0) for g in GRAMS}
+    needed = {(0, g, 0) for g in A1_GRAMS}
     for h in histories:
         for o in h:
             a, t = o.get('a'), o.get('t')
@@ -2325,7 +2723,7 @@ def run_histories(chk: Check, pool: Pool, mr: ModelRun, variant: str):
                 needed |= {(a['name'], a['g'], a.get('cs', 0)), (a['name'], a['g'], 0)}
             if t:
                 needed |= {(t['name'], t['g'], t['ts']), (0, t['g'], t['ts']), (t['name'], t['g'], 0)}
-    triples = [(nm, g, cs) for nm in (0, 1, 2) for g in GRAMS for cs in VALID_SETTINGS
+    triples = [(nm, g, cs) for nm in (0, 1, 2) for g in A1_GRAMS for cs in VALID_SETTINGS
                if (cs not in REGEX_SETTINGS or g in REGEX_GRAMS) and (nm, g, cs) in needed
                and not (cs == 6 and g in SHAPE_GRAMS)]     # succeeds, after minutes (see gen_cargs)
     for nm, g, cs in triples:
@@ -2392,12 +2790,21 @@ def run_histories(chk: Check, pool: Pool, mr: ModelRun, variant: str):
         chk.case(json.dumps([h[:i + 1]], sort_keys=True), nontrivial=i > 0)
         chk.count(f'A1.calls.{kind}')
         for x in _op_sems(o):
-            if x is not None and x >= EPH_BASE:
+            if x is not None and x >= OWN_SEM_BASE:
+                chk.count('A1.per_call_builder_semantics_over_owned_containers')
+            elif x in CTX_SEMS:
+                chk.count('A1.semantics_with_safe_context')
+            elif x is not None and x >= EPH_BASE:
                 chk.count('A1.short_lived_semantics.' + eph_kind(x))
         for d, key in ((o.get('a'), 'cs'), (o.get('p'), 'ps'), (o.get('t'), 'ts'), (o, 'cs'), (o.get('p'), 'cfgobj'),
                        (o.get('t'), 'cfgobj'), (o, 'ccfg')):
             if d and d.get(key) in REGEX_SETTINGS:
                 chk.count('A1.regex_setting_form.' + REGEX_FORM_NAMES[d[key]])
+        for d in (o.get('a'), o.get('t')):
+            if d and d.get('bopt') in OWN_BOPTS:
+                chk.count('A1.owned_builder_option.' + '+'.join(sorted(OWN_FAMILY['bopts'][str(d['bopt'])])))
+            if d and d.get('g') in CONST_GRAMS:
+                chk.count('A1.calls_over_constant_expression_grammars')
         if 'exc' in rh:
             chk.count('A1.calls_raising')
         if rh.get('mutated'):
@@ -2421,7 +2828,16 @@ def run_histories(chk: Check, pool: Pool, mr: ModelRun, variant: str):
                               {'oracle': 'A1 fresh-process replay', 'history': small, 'after_history': rh, 'fresh': r0,
                                'model': [th, t0]})
                 continue
-        if types_dep:
+        if types_dep and not synth_bases_only(rh.get('types'), r0.get('types')):
+            # not the registry of synthesized classes: a class of the result is not a synthesized one in the history
+            # or in the fresh process (a class from a container of the caller, or none where there was one)
+            n_unexpl += 1
+            sig = f'history:unexplained-classes:{kind}'
+            small = shrink_history(pool, h, i, lambda a, b: val_of(a) == val_of(b) and a.get('types') != b.get('types'), sig)
+            chk.violation(sig, f'{kind}: the node classes of the result are not the ones of the same call in a fresh process',
+                          {'oracle': 'A1 fresh-process replay', 'history': small, 'after_history': rh.get('types'),
+                           'fresh': r0.get('types')})
+        elif types_dep:
             chk.count('A1.synth_bases_differ')
             small = shrink_history(pool, h, i, lambda a, b: val_of(a) == val_of(b) and a.get('types') != b.get('types'),
                                    'history:synth-class-bases')
@@ -2796,6 +3212,14 @@ def main():
     extra['texts'].update(sfam['texts'])
     chk.extra['shape_family'] = sfam['describe']
     chk.extra['regex_form_family'] = fam['describe']
+    cfam = gen_const_family(_random.Random(f'{PID}-{chk.seed}-const-family'))
+    extra['grammars'].update(cfam['grammars'])
+    extra['texts'].update(cfam['texts'])
+    extra['contexts'] = cfam['contexts']
+    chk.extra['constant_expression_family'] = cfam['describe']
+    OWN_FAMILY.update(gen_owned_family(_random.Random(f'{PID}-{chk.seed}-owned-family')))
+    extra['owned'] = dict(OWN_FAMILY)
+    chk.extra['owned_builder_containers'] = dict(OWN_FAMILY)
     EXTRA_ENV['json'] = json.dumps(extra, sort_keys=True)
     chk.rule = ('A1: random histories (2..8 calls quick, 2..12 thorough) of compile / model.parse / compile+parse / '
                 'tatsu.parse / to_python_sourcecode / generated parser construction and parse (parser objects get asmodel=, '
@@ -2829,6 +3253,12 @@ def main():
                 'grouped closure / join bodies, rule-call chains, includes, leading-bar choices, parameters, directives; texts: '
                 'random derivations, one cut short, one with a foreign word); the grammar model compared before / after every '
                 'parse and across histories by asjson, by a walk over node classes and fields, by pretty() and pretty_lean(). '
+                '27 directed + 6 random (120 thorough) histories over 3 seed-generated grammars whose constants are expressions '
+                'over names that are named elements of this / another rule / another grammar, provided by safe_context() of '
+                'a semantics object, or undefined; 14 directed (all sharing pairs thorough) + 8 random (150) histories over '
+                'the typed grammars with 10 builder options made of containers the caller owns and reuses (typedefs lists '
+                'over module / mapping / class, constructors lists, BuilderConfig objects over them, per-call '
+                'ModelBuilderSemantics), with a write-set oracle over every such container around every call. '
                 'Non-trivial: the call has at least one earlier call; distinct by content of the history prefix.')
     chk.trusted += ['CPython 3.12 (fork, threads, GIL), the abstraction of call arguments to Lib/Api.v identities '
                     '(harness Abstraction), sha256 injective on the pool grammars',
